@@ -67,6 +67,9 @@ def cases(e, h, xhtml, table):
     }
     if table:
         out["td"] = ("|" + e + "|\n|-|", f"<table>\n<thead>\n<tr>\n<th>{h}</th>\n</tr>\n</thead>\n</table>\n")
+        # rows written without the optional leading / trailing pipes, t in the last cell
+        out["td_open_row"] = ("h|k\n-|-\nx|" + e, "<table>\n<thead>\n<tr>\n<th>h</th>\n<th>k</th>\n</tr>\n</thead>\n<tbody>\n<tr>\n"
+                              f"<td>x</td>\n<td>{h}</td>\n</tr>\n</tbody>\n</table>\n")
     return out
 
 
@@ -142,7 +145,7 @@ def ref_case(md, c, ref, value, acc, label):
 
 def bounds(tier):
     return {"alphabet": CH, "L": 4 if tier == "thorough" else 3, "forms": list(FORMS), "configs": CFGS,
-            "contexts": ["p", "h", "em", "strong", "s", "em_in_link", "link", "img", "title", "td"], "named_references": len(NAMED),
+            "contexts": ["p", "h", "em", "strong", "s", "em_in_link", "link", "img", "title", "td", "td_open_row"], "named_references": len(NAMED),
             "all_html5_names": len(all_named()), "numeric_points": [hex(x) for x in NUMERIC_POINTS],
             "numeric_spellings": "decimal padded to 7 digits, hex (x/X, both cases) padded to 6 digits"}
 
